@@ -15,13 +15,15 @@ EMPTY_SEQ = z3.Empty(SeqSort)
 class SInt:
     """Symbolic mathematical integer.  lo/hi: syntactically known bounds (or None); tz: number of
     low bits known to be zero."""
-    __slots__ = ("t", "lo", "hi", "tz")
+    __slots__ = ("t", "lo", "hi", "tz", "parts")
 
     def __init__(self, t, lo=None, hi=None, tz=0):
         self.t = t
         self.lo = lo
         self.hi = hi
         self.tz = tz
+        self.parts = None   # optional bit-field decomposition: ((shift, width, piece), ...), value == sum(piece << shift),
+        #                     0 <= piece < 2**width, bit ranges disjoint (set for words assembled from octets, see ops.from_parts)
 
     def __repr__(self):
         return f"SInt({self.t})"
